@@ -12,7 +12,10 @@
 //! operands : e<i> element · a AttributeOperand · x undecodable extension object ·
 //!            s SimpleAttributeOperand that resolves to nothing · s0 the same without browse path ·
 //!            n literal NULL · <type>:<value> numeric/Boolean literal (as in C06) ·
-//!            str:s<hex> / str:- String literal (ASCII) · nid:<type> / nid:bad NodeId of a data type
+//!            str:s<hex> / str:- String literal (ASCII) · nid:<type> / nid:bad NodeId of a data type ·
+//!            sv:sev / sv:src SimpleAttributeOperand that resolves to the Severity (UInt16 7) / SourceName
+//!            (String "abc") property of the event the clause is evaluated against
+//!       evalevent                       event_filter::evaluate (the event passes / does not pass) → `ok 1|0`
 use super::c06::{self, T, V};
 use crate::common::*;
 use opcua::server::events::event_filter;
@@ -97,6 +100,8 @@ enum Opd {
     Attr,
     Undecodable,
     Simple(bool),
+    /// SimpleAttributeOperand with a browse path that exists below the event (0 Severity, 1 SourceName)
+    Field(u8),
     Lit(Lit),
 }
 
@@ -136,6 +141,8 @@ fn parse_operand(tok: &str) -> Option<Opd> {
         "s" => return Some(Opd::Simple(true)),
         "s0" => return Some(Opd::Simple(false)),
         "n" => return Some(Opd::Lit(Lit::Null)),
+        "sv:sev" => return Some(Opd::Field(0)),
+        "sv:src" => return Some(Opd::Field(1)),
         _ => {}
     }
     if let Some(i) = tok.strip_prefix('e') {
@@ -167,6 +174,8 @@ fn show_operand(o: &Opd) -> String {
         Opd::Undecodable => "x".into(),
         Opd::Simple(true) => "s".into(),
         Opd::Simple(false) => "s0".into(),
+        Opd::Field(0) => "sv:sev".into(),
+        Opd::Field(_) => "sv:src".into(),
         Opd::Lit(Lit::Null) => "n".into(),
         Opd::Lit(Lit::Num(t, v)) => format!("{}:{}", t.name(), c06::show_op_val(*v)),
         Opd::Lit(Lit::Str(None)) => "str:-".into(),
@@ -226,8 +235,47 @@ fn real_operand(o: &Opd) -> ExtensionObject {
             index_range: UAString::null(),
         })
         .into(),
+        Opd::Field(k) => Operand::simple_attribute(
+            ObjectTypeId::BaseEventType,
+            if *k == 0 { "Severity" } else { "SourceName" },
+            AttributeId::Value,
+            UAString::null(),
+        )
+        .into(),
         Opd::Lit(l) => Operand::literal(lit_variant(l)).into(),
     }
+}
+
+/// One address space (read only) that holds one raised BaseEventType event: source node = the
+/// Server object, Severity 7, SourceName "abc".
+struct EventSpace {
+    address_space: opcua::server::address_space::AddressSpace,
+    event_id: NodeId,
+}
+unsafe impl Sync for EventSpace {}
+unsafe impl Send for EventSpace {}
+
+fn event_space() -> &'static EventSpace {
+    use opcua::server::events::event::{BaseEventType, Event};
+    static S: std::sync::OnceLock<EventSpace> = std::sync::OnceLock::new();
+    S.get_or_init(|| {
+        let mut address_space = opcua::server::address_space::AddressSpace::new();
+        let ns = address_space.register_namespace("urn:verif:c39").unwrap();
+        let event_id = NodeId::new(ns, 1000u32);
+        let mut event = BaseEventType::new(
+            &event_id,
+            ObjectTypeId::BaseEventType,
+            "VerifEvent",
+            "",
+            NodeId::objects_folder_id(),
+            DateTime::now(),
+        )
+        .source_node(ObjectId::Server)
+        .source_name("abc")
+        .severity(7);
+        event.raise(&mut address_space).expect("event raised");
+        EventSpace { address_space, event_id }
+    })
 }
 
 fn real_filter(elems: &[Elem]) -> ContentFilter {
@@ -520,6 +568,8 @@ impl<'a> RefCtx<'a> {
             }
             Opd::Attr | Opd::Undecodable => Err(RefErr::Malformed),
             Opd::Simple(_) => Ok(RV::Null),
+            Opd::Field(0) => Ok(RV::Int(T::U16, 7)),
+            Opd::Field(_) => Ok(RV::Str("abc".to_string())),
             Opd::Lit(Lit::Null) => Ok(RV::Null),
             Opd::Lit(Lit::Num(t, v)) => Ok(match v {
                 V::I(x) => {
@@ -675,6 +725,8 @@ impl<'a> RefCtx<'a> {
                 let v2 = self.value(&ops[1], path)?;
                 match (&v1, &v2) {
                     (RV::Unknown, _) | (_, RV::Unknown) => Ok(RV::Unknown),
+                    // a NodeId converts implicitly to its text: the text format is not this property's
+                    (RV::Nid, _) | (_, RV::Nid) => Ok(RV::Unknown),
                     (RV::Str(s), RV::Str(p)) => {
                         if p.contains('_') {
                             self.tag("like-underscore");
@@ -997,6 +1049,8 @@ fn gen_case(rng: &mut Rng, out: &mut Vec<String>) {
                 }
             } else if rng.chance(1, 25) {
                 Opd::Simple(rng.chance(1, 2))
+            } else if rng.chance(1, 20) {
+                Opd::Field(rng.below(2) as u8)
             } else {
                 gen_literal(rng, want)
             };
@@ -1010,6 +1064,210 @@ fn gen_case(rng: &mut Rng, out: &mut Vec<String>) {
     }
     out.push("validate".to_string());
     out.push("eval".to_string());
+    out.push("evalevent".to_string());
+}
+
+fn hexs(x: &str) -> String {
+    format!("str:{}", show_str(x))
+}
+
+/// Deterministic small-scope enumeration: every case is one short clause + `validate` + `eval`.
+fn sweep_cases() -> Vec<Vec<String>> {
+    let mut cases: Vec<Vec<String>> = Vec::new();
+    let mut clause = |elems: &[String]| {
+        let mut c = vec!["reset".to_string()];
+        c.extend(elems.iter().map(|e| format!("elem {}", e)));
+        c.push("validate".to_string());
+        c.push("eval".to_string());
+        c.push("evalevent".to_string());
+        cases.push(c);
+    };
+    // representative literals of every value class (and of every conversion outcome)
+    let lits: Vec<String> = vec![
+        "n".into(),
+        "bool:0".into(),
+        "bool:1".into(),
+        "i8:-1".into(),
+        "u8:1".into(),
+        "i16:2".into(),
+        "i32:1".into(),
+        "i32:-1".into(),
+        "u64:1".into(),
+        "u64:18446744073709551615".into(),
+        "i64:-1".into(),
+        "f32:g3f800000".into(), // 1.0
+        "f64:f3ff0000000000000".into(), // 1.0
+        "f64:f3fe0000000000000".into(), // 0.5
+        "f64:f7ff8000000000000".into(), // NaN
+        "f64:fbff0000000000000".into(), // -1.0
+        hexs("a"),
+        hexs("b"),
+        "str:-".into(),
+        "nid:i32".into(),
+        "nid:bad".into(),
+        "s".into(),
+        "sv:sev".into(),
+        "sv:src".into(),
+    ];
+    // (a) operand counts: None, empty, below / at / above the minimum, for every operator
+    for (op, name, _) in OPS.iter() {
+        let min = op.min_operands();
+        let arg = match op {
+            Op::And | Op::Or | Op::Not => "bool:1",
+            Op::Like => "str:s61",
+            _ => "i32:1",
+        };
+        clause(&[format!("{} -", name)]);
+        clause(&[name.to_string()]);
+        for k in 1..=min + 1 {
+            clause(&[format!("{} {}", name, vec![arg; k].join(" "))]);
+        }
+    }
+    // every operator over an element that is unsupported, and with an undecodable operand
+    for (op, name, _) in OPS.iter() {
+        let min = op.min_operands();
+        let mut a = vec!["e1"; 1];
+        a.extend(vec!["i32:1"; min.max(2) - 1]);
+        clause(&[format!("{} {}", name, a.join(" ")), "oftype i32:1 i32:1".into()]);
+        let mut b = vec!["i32:1"; min.max(2) - 1];
+        b.push("e1");
+        clause(&[format!("{} {}", name, b.join(" ")), "oftype i32:1 i32:1".into()]);
+        let mut c = vec!["i32:1"; min.max(2) - 1];
+        c.push("x");
+        clause(&[format!("{} {}", name, c.join(" "))]);
+    }
+    // (b) three-valued logic: all rows of the And / Or / Not tables, NULL both as the NULL literal
+    //     and as a value that does not resolve to a Boolean
+    let tri = ["bool:1", "bool:0", "n", "i32:1", "str:s61"];
+    for a in tri {
+        clause(&[format!("not {}", a)]);
+        for b in tri {
+            clause(&[format!("and {} {}", a, b)]);
+            clause(&[format!("or {} {}", a, b)]);
+        }
+    }
+    // (c) comparison of every pair of value classes with every comparison operator
+    for (i, a) in lits.iter().enumerate() {
+        for (j, b) in lits.iter().enumerate() {
+            clause(&[format!("eq {} {}", a, b)]);
+            // the ordering operators on the classes that can be ordered (and NULL)
+            if i < 16 && j < 16 {
+                for op in ["gt", "lt", "gte", "lte"] {
+                    clause(&[format!("{} {} {}", op, a, b)]);
+                }
+            }
+        }
+    }
+    // (c2) operator::convert over every ordered pair of the 11 numeric types: the extremes of each
+    //      side against 1 (the conversion towards the higher precedence fails or not) and 1 against 1
+    for st in c06::ALL {
+        for dt in c06::ALL {
+            let ext = |t: T| -> (V, V, V) {
+                match t {
+                    T::F32 => (V::F32(f32::MIN), V::F32(f32::MAX), V::F32(1.0)),
+                    T::F64 => (V::F64(f64::MIN), V::F64(f64::MAX), V::F64(1.0)),
+                    _ => {
+                        let (lo, hi) = t.range();
+                        (V::I(lo), V::I(hi), V::I(1))
+                    }
+                }
+            };
+            let (slo, shi, sone) = ext(st);
+            let (dlo, dhi, done) = ext(dt);
+            let lit = |t: T, v: V| format!("{}:{}", t.name(), c06::show_op_val(v));
+            for (a, b) in [(shi, done), (slo, done), (sone, done), (sone, dhi), (sone, dlo)] {
+                clause(&[format!("eq {} {}", lit(st, a), lit(dt, b))]);
+            }
+            clause(&[format!("lt {} {}", lit(st, slo), lit(dt, dhi))]);
+            // the direction of the conversion decides these two (1 < MAX, MAX > 1)
+            clause(&[format!("lt {} {}", lit(st, sone), lit(dt, dhi))]);
+            clause(&[format!("gt {} {}", lit(st, shi), lit(dt, done))]);
+            clause(&[format!("bitand {} {}", lit(st, shi), lit(dt, dhi))]);
+        }
+    }
+    // (d) operand kinds in a unary and in both positions of a binary operator
+    for o in ["e0", "e1", "e2", "e3", "e4", "e4294967295", "a", "x", "s", "s0", "n"] {
+        clause(&[format!("not {}", o), "eq i32:1 i32:1".into(), "not e1".into()]);
+        clause(&[format!("and {} bool:1", o), "eq i32:1 i32:1".into(), "not e1".into()]);
+        clause(&[format!("or bool:0 {}", o), "eq i32:1 i32:1".into(), "not e1".into()]);
+        clause(&[format!("isnull {}", o), "eq i32:1 i32:1".into(), "not e0".into()]);
+    }
+    // cycles through an ancestor further up
+    clause(&["not e1".into(), "not e2".into(), "not e0".into()]);
+    clause(&["not e1".into(), "not e2".into(), "not e1".into()]);
+    clause(&["and e1 e1".into(), "not e2".into(), "isnull n".into()]);
+    // (e) Between: every ordering of the value against both bounds, and failing conversions
+    for v in ["i32:0", "i32:1", "i32:2", "f64:f7ff8000000000000", "n", "u64:1", "bool:1"] {
+        for lo in ["i32:0", "i32:1", "i32:2", "n", "i8:-1", "bool:1", "bool:0"] {
+            for hi in ["i32:0", "i32:1", "i32:2", "n", "i8:-1", "e1", "bool:1", "bool:0"] {
+                clause(&[format!("between {} {} {}", v, lo, hi), "oftype i32:1 i32:1".into()]);
+            }
+        }
+    }
+    // (f) InList: match first / middle / last / none, lists of 1..3, errors inside the list
+    for l in [
+        "i32:1 i32:1",
+        "i32:1 i32:2",
+        "i32:1 i32:2 i32:1",
+        "i32:1 i32:1 i32:2",
+        "i32:1 i32:2 i32:3 i32:1",
+        "i32:1 i32:2 i32:3 i32:4",
+        "i32:1 n u8:1",
+        "i32:1 e1 u8:1",
+        "i32:1 e7 u8:1",
+        "i32:1 a u8:1",
+        "e1 i32:1",
+        "u64:1 i32:-1 u64:1",
+        "str:s61 str:s62 str:s61",
+    ] {
+        clause(&[format!("inlist {}", l), "oftype i32:1 i32:1".into()]);
+    }
+    // (g) bitwise: every pair of value classes, both operators
+    let bits = ["n", "bool:1", "i8:-1", "u8:3", "i32:-1", "i32:6", "u64:1", "u64:18446744073709551615", "f64:f3ff0000000000000", "str:s61", "nid:i32"];
+    for a in bits {
+        for b in bits {
+            clause(&[format!("bitand {} {}", a, b)]);
+            clause(&[format!("bitor {} {}", a, b)]);
+        }
+    }
+    // (h) Cast: every data type node, an unknown node, something that is not a NodeId
+    for v in ["u8:200", "i32:-1", "i32:0", "i32:1", "f64:fc004000000000000", "bool:1", "bool:0", "n", "str:s61", "u64:18446744073709551615"] {
+        for t in ["bool", "i8", "u8", "i16", "u16", "i32", "u32", "i64", "u64", "f32", "f64", "bad"] {
+            clause(&[format!("cast {} nid:{}", v, t)]);
+        }
+        clause(&[format!("cast {} i32:6", v)]);
+        clause(&[format!("cast {} n", v)]);
+    }
+    // (i) LIKE: one pattern per feature of the translation and of the regex syntax
+    let subjects = ["", "a", "b", "ab", "abc", "a.c", "a\\b", "\\", "%", "_", "]", "[a]", "a-c", "^", "ac", "a\nb", "aab", "$"];
+    for p in [
+        "", "a", "abc", "%", "a%", "%a", "%a%", "a%c", "_", "__", "a_", "_a", "a_c", "%_", "_%", "a__", "%__", "a%_",
+        "[a]", "[ab]", "[a-c]", "[^a]", "[^a-c]", "[]]", "[^]]", "[a-]", "[-a]", "[c-a]", "[a", "[", "[]", "[^]", "[^",
+        "[.]", "[*]", "[%]", "[_]", "[\\]]", "[\\\\]", "[a\\]", "[a^]", "a[bc]d", "[a]_", "[a]%", "[ab]__",
+        ".", "*", "?", "+", "(", ")", "$", "^", "-", "]", "a.c", "a$", "^a",
+        "\\%", "\\_", "\\[", "\\]", "\\\\", "\\.", "\\*", "\\a", "\\-", "\\^", "\\\\%", "\\\\_", "a\\", "\\", "\\\\\\",
+    ] {
+        let mut c = vec!["reset".to_string(), format!("likere {}", show_str(p))];
+        for s in subjects {
+            c.push("reset".to_string());
+            c.push(format!("elem like {} {}", hexs(s), hexs(p)));
+            c.push("eval".to_string());
+        }
+        cases.push(c);
+    }
+    // LIKE with operands that are not strings
+    let classes = ["n", "bool:1", "i32:1", "f64:f3ff0000000000000", "str:s61", "str:s25", "str:-", "nid:i32", "s"];
+    for a in classes {
+        for b in classes {
+            let mut c = vec!["reset".to_string()];
+            c.push(format!("elem like {} {}", a, b));
+            c.push("validate".to_string());
+            c.push("eval".to_string());
+            cases.push(c);
+        }
+    }
+    cases.push(vec!["reset".into(), "nullclause".into(), "validate".into(), "eval".into(), "evalevent".into()]);
+    cases
 }
 
 impl Prop for C39 {
@@ -1018,7 +1276,15 @@ impl Prop for C39 {
     }
 
     fn gen(&self, rng: &mut Rng, n: usize, _tier: Tier, out: &mut Vec<String>) {
-        for _ in 0..n {
+        // 1. systematic single-step sweep (operand counts, truth tables, comparison class pairs,
+        //    operand kinds, Between/InList outcomes, bitwise, Cast targets, LIKE syntax features)
+        let sweep = sweep_cases();
+        let m = sweep.len().min(n);
+        for c in &sweep[..m] {
+            out.extend(c.iter().cloned());
+        }
+        // 2. random filters
+        for _ in m..n {
             gen_case(rng, out);
         }
     }
@@ -1080,8 +1346,7 @@ impl Runner for R {
                     select_clauses: None,
                     where_clause: real_filter(&self.elems),
                 };
-                let address_space = crate::fixtures::server().address_space.read();
-                match event_filter::validate(&filter, &address_space) {
+                match event_filter::validate(&filter, &event_space().address_space) {
                     Ok(r) => {
                         let codes: Vec<String> = r
                             .where_clause_result
@@ -1097,9 +1362,9 @@ impl Runner for R {
             }
             ["eval"] => {
                 let filter = real_filter(&self.elems);
-                let object_id = NodeId::root_folder_id();
-                let address_space = crate::fixtures::server().address_space.read();
-                let res = hook::evaluate_where_clause(&object_id, &filter, &address_space);
+                // the clause is evaluated against the raised event (as event_filter::evaluate does)
+                let es = event_space();
+                let res = hook::evaluate_where_clause(&es.event_id, &filter, &es.address_space);
                 let line = match &res {
                     Ok(v) => format!("ok {}", show_variant(v)),
                     Err(e) => format!("err {}", e),
@@ -1143,6 +1408,74 @@ impl Runner for R {
                     ),
                 };
                 (line, verdict)
+            }
+            ["nullclause"] => {
+                // a ContentFilter without an element array (`elements: None`)
+                let es = event_space();
+                let filter = ContentFilter { elements: None };
+                let res = hook::evaluate_where_clause(&es.event_id, &filter, &es.address_space);
+                let val = event_filter::validate(
+                    &EventFilter {
+                        select_clauses: None,
+                        where_clause: ContentFilter { elements: None },
+                    },
+                    &es.address_space,
+                );
+                let r = match &res {
+                    Ok(v) => format!("ok {}", show_variant(v)),
+                    Err(e) => format!("err {}", e),
+                };
+                let v = match val {
+                    Ok(r) => match r.where_clause_result.element_results {
+                        None => "none".to_string(),
+                        Some(v) => format!("{}", v.len()),
+                    },
+                    Err(e) => format!("err:{}", e),
+                };
+                let verdict = if res == Ok(Variant::Boolean(true)) {
+                    Verdict::Ok
+                } else {
+                    Verdict::fail("operator_semantics", "null-clause", "a clause without elements must be TRUE")
+                };
+                (format!("{} {}", r, v), verdict)
+            }
+            ["evalevent"] => {
+                // the public entry point: events of the Server object that pass the where clause
+                let es = event_space();
+                let filter = EventFilter {
+                    select_clauses: None,
+                    where_clause: real_filter(&self.elems),
+                };
+                let epoch = chrono::DateTime::<chrono::Utc>::from_timestamp(0, 0).unwrap();
+                let source: NodeId = ObjectId::Server.into();
+                let got = event_filter::evaluate(&source, &filter, &es.address_space, &epoch, 1);
+                let passed = got.map(|v| v.len()).unwrap_or(0);
+                // oracle: the event passes exactly when the where clause is TRUE
+                let mut ctx = RefCtx {
+                    elems: &self.elems,
+                    tags: Vec::new(),
+                };
+                let expected = if self.elems.is_empty() {
+                    Ok(RV::Bool(true))
+                } else {
+                    let mut path = vec![0u32];
+                    ctx.eval(&self.elems[0], &mut path)
+                };
+                let class = clause_class(&self.elems, &ctx.tags);
+                let verdict = match expected {
+                    Ok(RV::Unknown) => Verdict::Ok,
+                    Ok(v) => {
+                        let want = (v == RV::Bool(true)) as usize;
+                        if want == passed {
+                            Verdict::Ok
+                        } else {
+                            Verdict::fail("operator_semantics", &class, format!("event passed {} want {}", passed, want))
+                        }
+                    }
+                    // not a well-formed clause: only "no panic" is required (as for `eval`)
+                    Err(_) => Verdict::Ok,
+                };
+                (format!("ok {}", passed), verdict)
             }
             ["likere", p] => {
                 let p = match parse_str(p) {
